@@ -556,13 +556,36 @@ def r_keep(prog, tier):
                     txt = unparse(a.ast)
                     if 'children' in txt and set(a.loops) >= set(cfg.nodes[d.node].loops):
                         mention.append(txt)
+                wrong_node = None
+                for (fa, nid) in facts_at(cfg, d.node):
+                    a = cfg.nodes[nid]
+                    if not set(a.loops) >= set(cfg.nodes[d.node].loops):
+                        continue
+                    for P2 in _parent_forms(fa):
+                        if _len_gt1_of(fa, [P2]) and P2 not in cands:
+                            r1 = root_name(d.p)
+                            try:
+                                r2 = root_name(ast.parse(P2, mode='eval').body)
+                            except SyntaxError:
+                                r2 = None
+                            if r1 and r2 and r1 != r2 and P2.endswith('.parent') and (pres or praw or '').endswith('.parent'):
+                                # neither variable is defined as (a path from) the other
+                                def _mentions(a_, b_):
+                                    return any(isinstance(v_, ast.AST) and isinstance(v_, (ast.Name, ast.Attribute))
+                                               and root_name(v_) == b_ for (_, v_) in name_defs(f, a_))
+                                if not _mentions(r1, r2) and not _mentions(r2, r1):
+                                    wrong_node = (P2, unparse(a.ast))
                 opaque_guard = [unparse(a.ast) for a in cfg.assumes_at(d.node)
                                 if any(isinstance(c_, ast.Call) and (
                                     (isinstance(c_.func, ast.Name) and c_.func.id in f.locals) or
                                     (prog.callee(c_, f) is not None and not prog.pure_call(c_, f))) for c_ in ast.walk(a.ast))]
                 if opaque_guard and not mention:
                     mention = opaque_guard
-                if mention:
+                if wrong_node:
+                    verdict = False
+                    detail = 'the guard `%s` counts the children of `%s`, but the node is taken out of `%s`: the constituent ' \
+                             'it leaves can end up without children' % (wrong_node[1][:60], wrong_node[0], pres or praw)
+                elif mention:
                     verdict = None
                     detail = 'a condition on the children of the parent guards the move (`%s`) but not in a form ' \
                              'this rule can evaluate' % mention[-1][:60]
@@ -1270,7 +1293,13 @@ def _allowed_punct_cond(nm, f, ce, pol, d):
     root = f.params[0]
     if nm == 'punctuation_root':
         if fa[0] == 'cmp' and _len_gt1_of(fa, _parent_forms(fa)):
-            return True, 'the parent has more than one child'
+            pf = _parent_forms(fa)
+            if pf and all(x == root for x in pf):
+                return False, 'the condition counts the children of the root `%s`, not those of the token\'s parent: with a ' \
+                              'single root child no punctuation moves at all' % root
+            if pf and all(x.endswith('.parent') for x in pf):
+                return True, 'the parent has more than one child'
+            return None, 'a children count of `%s` restricts the move' % (pf[0] if pf else '?')
         if fa[0] == 'cmp' and fa[2] == '!=' and root in (fa[1], fa[3]) and \
                 (fa[1].endswith('.parent') or fa[3].endswith('.parent')):
             return True, 'the token is not yet a child of the root'
@@ -1310,6 +1339,8 @@ def _is_enum_index(f, name):
 def _parent_forms(fa):
     """candidate parent paths mentioned in a len(...) comparison"""
     out = []
+    if fa[0] != 'cmp':
+        return out
     for s in (fa[1], fa[3]):
         if s.startswith('len('):
             inner = s[4:-1]
